@@ -10,19 +10,24 @@
   FULL STATEMENTS:
      no_internal_error     ∀ quiet ops, run quiet n (mkEdit o orc [] [] f t) ops ≠ error
      history_independent   finish (run quiet m ops) = finish m = (cost, script) of L2 `edits`
-  PROVED here, for every machine built from const / kvp / str / fixed / coll nodes over atoms that obey the
-  protocol (`AtomHyp`, `EditsHyp`; see C04 for what is missing about the atom classes `ed`, `ms`):
-     no_internal_error_partial      every run succeeds, for BOTH values of `quiet`
-     observations_nested_partial    every interval a run observes lies in the previous one and contains the final cost
-     history_independent_partial    finish after any run = finish of the fresh machine = the ghost script `scriptG`,
-                                    which does not mention `quiet`: the result is the same for quiet and non-quiet
-     *_structural                   the same with no hypothesis for machines without atoms (fixed-key dictionaries
-                                    with their lazily expanded EditCollection, key/value pairs, positional lists)
-  MISSING: the atom classes (hypotheses above) and the last link `scriptG (mkEdit …) = L2 edits` (the L3→L2
-  refinement; validated by the `history`/`trace` streams against the real code, and L2 by the `script` stream).
+  PROVED here:
+     no_internal_error, observations_nested, history_independent, history_independent_L2,
+     observations_contain_L2_cost, mkEdit_refines_L2
+                                    the FULL statements, with no hypothesis on the machine, for `from.edits(to)` on the
+                                    fragment WITHOUT MultiSetEdit: `f.noDict` (no DictNode on the from side), distinct
+                                    keys, to-side in the domain `fkOK` of FixedKeyDictNodeEdit's static upper bound
+                                    (outside it the statements are FALSE: finding D24, NOTES_C05).  The result of
+                                    finishing after any history, for both values of `quiet`, is L2's `edits` itself.
+     *_no_multiset                  the same for every machine without MultiSetEdit that satisfies the structural
+                                    invariant `invG` (leaves, key/value pairs, string edits, positional lists,
+                                    fixed-key dictionaries with their lazily expanded EditCollection, EditDistance)
+     *_partial                      over MultiSetEdit atoms that obey the protocol (`AtomHyp`, `EditsHyp`)
+  MISSING: the atom class `ms` (MultiSetEdit + matcher; validated by the `history`/`trace` streams against the real
+  code, and L2 by the `script` stream).
 -/
 import GtModel.Props.C04
 import GtModel.Proofs.LazyEd
+import GtModel.Proofs.LazyRefC
 
 namespace GtModel.C05
 open GtModel.Lazy
@@ -60,18 +65,85 @@ theorem noAtoms_edits (q : Bool) (F : Nat) : EditsHyp q F C04.noAtoms := by
   intro n _ m hI ha
   cases m <;> simp [isAtom] at ha <;> exact hI.1.elim
 
-/-- unconditional, machines without atoms (const, kvp, fixed, coll) -/
-theorem no_internal_error_structural (q : Bool) (F : Nat) (hF : 0 < F) (n : Nat) (m : M)
+/-- unconditional, every machine without MultiSetEdit (const, kvp, str, fixed, coll, ed) -/
+theorem no_internal_error_no_multiset (q : Bool) (F : Nat) (hF : 0 < F) (n : Nat) (m : M)
     (hI : (G C04.noAtoms F (n + 1)).I m) (hμ : muG C04.noAtoms m < F) (ops : List Op) (e : Err) :
     run q F n m ops ≠ .error e :=
   no_internal_error_partial q F hF C04.noAtoms (C04.noAtoms_hyp q F) (noAtoms_edits q F) n m hI hμ ops e
 
-theorem history_independent_structural (q1 q2 : Bool) (F : Nat) (hF : 0 < F) (n : Nat) (m : M)
+theorem observations_nested_no_multiset (q : Bool) (F : Nat) (hF : 0 < F) (n : Nat) (m : M)
+    (hI : (G C04.noAtoms F (n + 1)).I m) (hμ : muG C04.noAtoms m < F) (ops : List Op) :
+    ∃ m' rs, run q F n m ops = .ok (m', rs) ∧ Nested (finG C04.noAtoms m) (viewG C04.noAtoms m) rs :=
+  observations_nested_partial q F hF C04.noAtoms (C04.noAtoms_hyp q F) (noAtoms_edits q F) n m hI hμ ops
+
+theorem history_independent_no_multiset (q1 q2 : Bool) (F : Nat) (hF : 0 < F) (n : Nat) (m : M)
     (hI : (G C04.noAtoms F (n + 1)).I m) (hμ : muG C04.noAtoms m < F) (ops : List Op) :
     ∃ m1 rs m2 m3, run q1 F n m ops = .ok (m1, rs) ∧ finish q1 F n m1 = .ok (m2, scriptG C04.noAtoms m) ∧
       finish q2 F n m = .ok (m3, scriptG C04.noAtoms m) :=
   history_independent_partial q1 q2 F hF C04.noAtoms (C04.noAtoms_hyp q1 F) (C04.noAtoms_hyp q2 F)
     (noAtoms_edits q1 F) n m hI hμ ops
+
+/-- FULL STATEMENT for the fragment without MultiSetEdit (`f.noDict`, distinct keys, to-side in the domain `fkOK`
+    of the static FixedKeyDictNodeEdit bound — see `C04.mkEdit_invariant`): no sequence of public operations on the
+    machine of `from.edits(to)` raises, for both values of `quiet`, every loop bound above the machine's measure
+    and every nesting bound above its height -/
+theorem no_internal_error (q : Bool) (o : Opts) (orc : Orc) (f t : Tree) (hf : f.noDict = true) (hkf : f.KeysDistinct)
+    (hkt : t.KeysDistinct) (ht : t.fkOK = true) (F n : Nat) (hF : muG C04.noAtoms (mkEdit o orc [] [] f t) < F)
+    (hn : height (mkEdit o orc [] [] f t) ≤ n + 1) (ops : List Op) (e : Err) :
+    run q F n (mkEdit o orc [] [] f t) ops ≠ .error e :=
+  no_internal_error_no_multiset q F (by omega) n _ (C04.mkEdit_invariant o orc f t hf hkf hkt ht F (n + 1) hF hn) hF ops e
+
+/-- every interval observed during any run on `from.edits(to)` lies in the previous one, starting from the initial
+    bounds, and contains the final cost -/
+theorem observations_nested (q : Bool) (o : Opts) (orc : Orc) (f t : Tree) (hf : f.noDict = true) (hkf : f.KeysDistinct)
+    (hkt : t.KeysDistinct) (ht : t.fkOK = true) (F n : Nat) (hF : muG C04.noAtoms (mkEdit o orc [] [] f t) < F)
+    (hn : height (mkEdit o orc [] [] f t) ≤ n + 1) (ops : List Op) :
+    ∃ m' rs, run q F n (mkEdit o orc [] [] f t) ops = .ok (m', rs) ∧
+      Nested (finG C04.noAtoms (mkEdit o orc [] [] f t)) (initIv (mkEdit o orc [] [] f t)) rs := by
+  have := observations_nested_no_multiset q F (by omega) n _
+    (C04.mkEdit_invariant o orc f t hf hkf hkt ht F (n + 1) hF hn) hF ops
+  rwa [(C04.mkEdit_initial_bounds o orc f t hf hkf hkt ht).1] at this
+
+/-- finishing `from.edits(to)` after ANY history of public operations gives the same script as finishing it at once,
+    for any two settings of `quiet` -/
+theorem history_independent (q1 q2 : Bool) (o : Opts) (orc : Orc) (f t : Tree) (hf : f.noDict = true)
+    (hkf : f.KeysDistinct) (hkt : t.KeysDistinct) (ht : t.fkOK = true) (F n : Nat)
+    (hF : muG C04.noAtoms (mkEdit o orc [] [] f t) < F) (hn : height (mkEdit o orc [] [] f t) ≤ n + 1)
+    (ops : List Op) :
+    ∃ m1 rs m2 m3, run q1 F n (mkEdit o orc [] [] f t) ops = .ok (m1, rs) ∧
+      finish q1 F n m1 = .ok (m2, scriptG C04.noAtoms (mkEdit o orc [] [] f t)) ∧
+      finish q2 F n (mkEdit o orc [] [] f t) = .ok (m3, scriptG C04.noAtoms (mkEdit o orc [] [] f t)) :=
+  history_independent_no_multiset q1 q2 F (by omega) n _
+    (C04.mkEdit_invariant o orc f t hf hkf hkt ht F (n + 1) hF hn) hF ops
+
+/-- L3 → L2 refinement: the ghost script and final cost of the fresh machine are L2's `edits` (as the harness dumps
+    it: `toD`), for every `f` without `DictNode` -/
+theorem mkEdit_refines_L2 (o : Opts) (orc : Orc) (f t : Tree) (hf : f.noDict = true) :
+    scriptG C04.noAtoms (mkEdit o orc [] [] f t) = toD (edits o orc.assign [] [] f t) ∧
+      finG C04.noAtoms (mkEdit o orc [] [] f t) = (edits o orc.assign [] [] f t).cost :=
+  ⟨(mkEdit_refines C04.noAtoms o orc f hf t [] []).scr, (mkEdit_refines C04.noAtoms o orc f hf t [] []).fin⟩
+
+/-- FULL STATEMENT `history_independent` with its last link: finishing `from.edits(to)` after ANY history, with any
+    `quiet` setting, yields exactly L2's script `edits o orc [] [] f t` (C01–C03 are theorems about that script) -/
+theorem history_independent_L2 (q1 q2 : Bool) (o : Opts) (orc : Orc) (f t : Tree) (hf : f.noDict = true)
+    (hkf : f.KeysDistinct) (hkt : t.KeysDistinct) (ht : t.fkOK = true) (F n : Nat)
+    (hF : muG C04.noAtoms (mkEdit o orc [] [] f t) < F) (hn : height (mkEdit o orc [] [] f t) ≤ n + 1)
+    (ops : List Op) :
+    ∃ m1 rs m2 m3, run q1 F n (mkEdit o orc [] [] f t) ops = .ok (m1, rs) ∧
+      finish q1 F n m1 = .ok (m2, toD (edits o orc.assign [] [] f t)) ∧
+      finish q2 F n (mkEdit o orc [] [] f t) = .ok (m3, toD (edits o orc.assign [] [] f t)) := by
+  have := history_independent q1 q2 o orc f t hf hkf hkt ht F n hF hn ops
+  rwa [(mkEdit_refines_L2 o orc f t hf).1] at this
+
+/-- every observed interval contains L2's cost -/
+theorem observations_contain_L2_cost (q : Bool) (o : Opts) (orc : Orc) (f t : Tree) (hf : f.noDict = true)
+    (hkf : f.KeysDistinct) (hkt : t.KeysDistinct) (ht : t.fkOK = true) (F n : Nat)
+    (hF : muG C04.noAtoms (mkEdit o orc [] [] f t) < F) (hn : height (mkEdit o orc [] [] f t) ≤ n + 1)
+    (ops : List Op) :
+    ∃ m' rs, run q F n (mkEdit o orc [] [] f t) ops = .ok (m', rs) ∧
+      Nested (edits o orc.assign [] [] f t).cost (initIv (mkEdit o orc [] [] f t)) rs := by
+  have := observations_nested q o orc f t hf hkf hkt ht F n hF hn ops
+  rwa [(mkEdit_refines_L2 o orc f t hf).2] at this
 
 /-- EditDistance invariant "matrix freed ⇒ script cached" (the state in which defect D8 dereferenced `None` is
     unreachable): preserved by `bounds()`, `tighten_bounds()` and `on_diff()`/`edits()` WHATEVER the cells do, and true
@@ -90,13 +162,23 @@ theorem editDistance_fresh_J (ps : Nat × Nat) (fs ts : List Nat) (pen : Nat) : 
 /-! non-vacuity: the machines of C04's examples (a nested positional list edit; a lazily expanded fixed-key
     dictionary edit), any operation sequence, loops bounded by 9 iterations -/
 example (ops : List Op) (e : Err) : run false 9 9 C04.exampleMachine ops ≠ .error e :=
-  no_internal_error_structural false 9 (by omega) 9 C04.exampleMachine
+  no_internal_error_no_multiset false 9 (by omega) 9 C04.exampleMachine
     (by simp [C04.exampleMachine, G, invG, invL, height, heightL])
     (by simp [C04.exampleMachine, muG, muL, viewL, viewG, Iv.add, Iv.point]) ops e
 
 example (ops : List Op) (e : Err) : run true 40 9 C04.exampleDict ops ≠ .error e :=
-  no_internal_error_structural true 40 (by omega) 9 C04.exampleDict
+  no_internal_error_no_multiset true 40 (by omega) 9 C04.exampleDict
     (by simp [C04.exampleDict, G, invG, invL, height, heightL, muL, muG, HiLe, viewOnly, viewG, Iv.add, Iv.point])
     (by simp [C04.exampleDict, muG, muL, viewL, viewG, decL, Iv.add, Iv.point]) ops e
+
+/-- non-vacuity of the full statements: a list alignment with a nested fixed-key dictionary and a string edit -/
+def exF : Tree := .list [.leaf (.int 1), .fdict [([107], .leaf (.str [97, 98]))], .leaf (.int 2)]
+def exT : Tree := .list [.fdict [([107], .leaf (.str [97, 99, 100]))], .leaf .null]
+
+example (q : Bool) (ops : List Op) (e : Err) :
+    run q (muG C04.noAtoms (mkEdit {} {} [] [] exF exT) + 1) (height (mkEdit {} {} [] [] exF exT))
+      (mkEdit {} {} [] [] exF exT) ops ≠ .error e :=
+  no_internal_error q {} {} exF exT (by decide) (by decide) (by decide) (by decide) _ _ (Nat.lt_succ_self _)
+    (Nat.le_succ _) ops e
 
 end GtModel.C05
